@@ -71,7 +71,7 @@ impl Agent for FakeAgent {
                 let (tx, rx) = context
                     .add_lane(name, WarpLaneKind::Value, config)
                     .await
-                    .map_err(|e| swimos_api::error::AgentInitError::FailedToStart(e))?;
+                    .map_err(|_| swimos_api::error::AgentInitError::FailedToStart)?;
                 lanes.push((name, tx, rx));
             }
             rec(
